@@ -5,7 +5,7 @@
    here, plus vm_compute witnesses.  The unchanged code violates the full statement (classes below). *)
 From Coq Require Import List NArith ZArith Bool.
 From LH Require Import Base.Bytes Model.Lexer Model.Ast Model.Scope Model.Globals Model.Resolve Spec.LuaScope
-  Proofs.ResolveRun Proofs.ResolveBasics Proofs.ResolveWitness Proofs.ResolveFull Properties.C05.
+  Proofs.ResolveRun Proofs.ResolveBasics Proofs.ResolveWitness Proofs.ResolveFull Proofs.ResolveFixes Properties.C05.
 Import ListNotations.
 Local Open Scope N_scope.
 
@@ -76,10 +76,15 @@ Print Assumptions C06_B5_for_step_order_refuted.
 (* a.lua: local x = 1\nreturn x *)
 Definition w_doc_end : list (list N * list N) :=
   [([97; 46; 108; 117; 97], [108; 111; 99; 97; 108; 32; 120; 32; 61; 32; 49; 10; 114; 101; 116; 117; 114; 110; 32; 120])].
-(* cursor at offset == len(contents) (end of the last identifier of a file without trailing newline): definition/references/highlight/rename return nothing (`offset >= len(contents)`), hover still answers *)
-Theorem C06_doc_end_refuted : refs_deviates MRefs w_doc_end [97; 46; 108; 117; 97] 1 8 = true.
+(* FIXED (fixes/C05-doc-end.diff): cursor at offset == len(contents) (end of the last identifier of a file without trailing
+   newline): definition/references/highlight/rename returned nothing (`offset >= len(contents)`) while hover answered.
+   The witness deviates for the code before the repair (`no_fixes`) and no longer for the code now in /repo. *)
+Theorem C06_doc_end_refuted_before_fix : refs_deviates_fx no_fixes w_doc_end MRefs [97; 46; 108; 117; 97] 1 8 = true.
 Proof. vm_compute. reflexivity. Qed.
-Print Assumptions C06_doc_end_refuted.
+Print Assumptions C06_doc_end_refuted_before_fix.
+Theorem C06_doc_end_fixed : refs_deviates MRefs w_doc_end [97; 46; 108; 117; 97] 1 8 = false.
+Proof. vm_compute. reflexivity. Qed.
+Print Assumptions C06_doc_end_fixed.
 
 (* a.lua: use(zq)\nuse(zq)\n *)
 Definition w_undefined_global : list (list N * list N) :=
@@ -110,15 +115,41 @@ Print Assumptions C06_split_global_refuted.
 Definition w_same_pos_other_file : list (list N * list N) :=
   [([97; 46; 108; 117; 97], [103; 32; 61; 32; 49; 10]);
    ([98; 46; 108; 117; 97], [103; 40; 41; 10])].
-(* references drop an occurrence in ANOTHER file that sits at the same line/column as the definition (ignoreDefineLoc is compared without the file name) *)
-Theorem C06_same_pos_other_file_refuted : refs_deviates MRefs w_same_pos_other_file [97; 46; 108; 117; 97] 0 0 = true.
+(* FIXED (fixes/C06-same-pos-other-file.diff): references dropped an occurrence in ANOTHER file that sits at the same
+   line/column as the definition (ignoreDefineLoc was compared without the file name).  The witness deviates for the
+   code before the repair (`no_fixes`) and no longer for the code now in /repo. *)
+Theorem C06_same_pos_other_file_refuted_before_fix : refs_deviates_fx no_fixes w_same_pos_other_file MRefs [97; 46; 108; 117; 97] 0 0 = true.
 Proof. vm_compute. reflexivity. Qed.
-Print Assumptions C06_same_pos_other_file_refuted.
+Print Assumptions C06_same_pos_other_file_refuted_before_fix.
+Theorem C06_same_pos_other_file_fixed : refs_deviates MRefs w_same_pos_other_file [97; 46; 108; 117; 97] 0 0 = false.
+Proof. vm_compute. reflexivity. Qed.
+Print Assumptions C06_same_pos_other_file_fixed.
 
 
 Theorem C06_refs_full_refuted : ~ C06_refs_full.
 Proof. exact (refs_full_refuted_by MRefs _ _ _ _ C06_B1_own_initialiser_refuted). Qed.
 Print Assumptions C06_refs_full_refuted.
+
+(* ---- repaired: for a GLOBAL target (F, g) and EVERY workspace the answer is the definition (where the mode reports
+   it) plus, per searched file X, exactly the occurrences the fourth pass matched - except those inside the definition's
+   range in the definition's own file F; an occurrence in another file is never dropped for its position *)
+Theorem C06_references_global_exact : forall mode w f fi n F g l,
+  references_of_target mode w f fi n (TGlobal F g) = Some l ->
+  forall x, In x l <->
+    (In x (reported_head mode f F (g_loc g)) \/
+     exists X fX o, In (X, fX) (searched mode w f fi) /\ In o (fi_occs fX) /\
+                    occ_matches_global w n F g X fX o = true /\
+                    ~ (X = F /\ inside (g_loc g) (o_loc o) = true) /\ x = (X, o_loc o)).
+Proof. exact references_global_exact. Qed.
+Print Assumptions C06_references_global_exact.
+
+Theorem C06_other_file_occurrence_kept : forall mode w f fi n line col F g l X fX o,
+  resolve_at w f fi n line col = TGlobal F g ->
+  references_at mode w f fi n line col = Some l ->
+  In (X, fX) (searched mode w f fi) -> X <> F -> In o (fi_occs fX) ->
+  occ_matches_global w n F g X fX o = true -> In (X, o_loc o) l.
+Proof. exact references_other_file_kept. Qed.
+Print Assumptions C06_other_file_occurrence_kept.
 
 (* positive check used by the non-vacuity example: at the start cursor of occurrence o the answer is exactly the set of
    occurrences the reference binder gives the same variable *)
@@ -304,9 +335,9 @@ Print Assumptions C06_refs_local_closed_model.
 
 (* the text side, for ALL texts: at every cursor column of an identifier that stands in the text (ident_at), the
    request is about that identifier (OffsetForPosition + GetVarStruct) *)
-Theorem C06_request_name_on_identifier : forall bs l name (col : N) docend,
+Theorem C06_request_name_on_identifier : forall bs l name (col : N),
   ident_at bs l name = true -> (sc l <= Z.of_N col <= ec l)%Z ->
-  request_name bs (line0_of l) col docend = Some (Some name).
+  request_name bs (line0_of l) col false = Some (Some name).
 Proof. exact request_name_at. Qed.
 Print Assumptions C06_request_name_on_identifier.
 
@@ -334,7 +365,8 @@ Proof. exact (refs_request_closed MRefs). Qed.
 Print Assumptions C06_refs_local_partial_closed_file.
 
 (* non-vacuity: C05's two example programs satisfy the whole-file guard (alone and in a two-file workspace): 25 of 33
-   and 36 of 43 occurrences are bound to locals; the guard rejects the witness programs of classes B1, B4, doc_end;
+   and 36 of 43 occurrences are bound to locals; the guard rejects the witness programs of classes B1, B4 and accepts the
+   one of the repaired class doc_end (the identifier at the very end of the text: ident_at no longer asks for a byte after it);
    in the B1 program `local x = 1 / local x = x + 1` the per-cursor guard holds on the first declaration (references
    from there are right: the traversal resolver is not affected by B1) and fails on the tagged use in `x + 1` *)
 Definition C06_cursor_guard (W : Z) (files : list (list N * list N)) (f : list N) (line col : N) : bool :=
@@ -344,7 +376,7 @@ Example C06_closed_guard_nonvacuous :
   request_guard 1000 [(a_lua, src_ok); (b_lua, src_core)] b_lua = true /\
   length (filter (fun s => match s_bind s with BLocal _ => true | BGlobal _ => false end) (bind_file (chunk_of src_core))) = 36%nat /\
   request_guard 1000 [(a_lua, src_init_shadow)] a_lua = false /\ request_guard 1000 [(a_lua, src_forward_decl)] a_lua = false /\
-  request_guard 1000 [(a_lua, src_doc_end)] a_lua = false /\
+  request_guard 1000 [(a_lua, src_doc_end)] a_lua = true /\
   C06_cursor_guard 1000 [(a_lua, src_init_shadow)] a_lua 0 6 = true /\
   C06_cursor_guard 1000 [(a_lua, src_init_shadow)] a_lua 1 10 = false.
 Proof. vm_compute. repeat split; reflexivity. Qed.
